@@ -179,12 +179,37 @@ def _assigned(stmts, spec):
                 walk(s.body)
             elif isinstance(s, ast.Try) and spec.try_passthrough:
                 walk(s.body)
+            elif isinstance(s, ast.Try) and spec.try_handlers:
+                walk(s.body)
+                for h_ in s.handlers:
+                    walk(h_.body)
             elif isinstance(s, ast.Assign) is False and isinstance(s, (ast.Return, ast.Break, ast.Continue, ast.Assert, ast.Expr, ast.Pass, ast.Raise)):
                 pass
             else:
                 U("statement " + u[:80])
     walk(stmts)
     return out
+
+
+def _prune_header(header, text):
+    """the implicit type binders `{A B : Type}` of `header` restricted to the type variables that occur in `text` (an auxiliary definition
+    that does not mention a type variable cannot have it inferred at its call sites); instance binders are kept when all the type variables
+    they mention are kept.  Only applied when some type variable is unused."""
+    groups = re.findall(r"\{([^}:]+):\s*Type\}", header)
+    names = [n for g in groups for n in g.split()]
+    if not names:
+        return header
+    used = [n for n in names if re.search(r"(?<![A-Za-z0-9_'])%s(?![A-Za-z0-9_'])" % re.escape(n), text)]
+    if len(used) == len(names):
+        return header
+    out = []
+    if used:
+        out.append("{%s : Type}" % " ".join(used))
+    for inst in re.findall(r"\[[^\]]+\]", header):
+        mentioned = [n for n in names if re.search(r"(?<![A-Za-z0-9_'])%s(?![A-Za-z0-9_'])" % re.escape(n), inst)]
+        if all(n in used for n in mentioned):
+            out.append(inst)
+    return " ".join(out)
 
 
 def _only_logging(stmts):
@@ -229,6 +254,8 @@ def _has_ctrl(stmts, kinds, spec):
             if inner and _has_ctrl(s.body, inner, spec):
                 return True
         if isinstance(s, ast.Try) and spec.try_passthrough and _has_ctrl(s.body, kinds, spec):
+            return True
+        if isinstance(s, ast.Try) and spec.try_handlers and (_has_ctrl(s.body, kinds, spec) or any(_has_ctrl(h_.body, kinds, spec) for h_ in s.handlers)):
             return True
     return False
 
@@ -692,7 +719,7 @@ class Translator:
         sig_inv = " ".join("(%s : %s)" % (v, self._ty(v)) for v in inv)
         comma = (", " + ", ".join(state)) if state else ""
         lines = ["/-- `for %s in %s:` of `%s` -/" % (ast.unparse(s.target), ukey, self.fn.name),
-                 ("def %s %s %s : %s" % (aux, sp.header, sig_inv, " → ".join(["List " + elem_ty] + [self._ty(v) for v in state] + [res_ty]))).replace("  ", " "),
+                 ("def %s %s %s : %s" % (aux, _prune_header(sp.header, sig_inv + " " + elem_ty + " " + " ".join(self._ty(v) for v in state) + " " + res_ty + " " + " ".join(body)), sig_inv, " → ".join(["List " + elem_ty] + [self._ty(v) for v in state] + [res_ty]))).replace("  ", " "),
                  "  | []%s => %s" % (comma, res_tuple),
                  "  | %s :: rest__%s =>" % (pat, comma)] + ind(body, 2)
         self.aux.append(lines)
@@ -734,7 +761,7 @@ class Translator:
         arrow = " → ".join(["List " + elem_ty] + [self._ty(v) for v in state] + [res_ty])
         comma = (", " + ", ".join(state)) if state else ""
         lines = ["/-- `for %s in %s:` of `%s` (the body may return) -/" % (ast.unparse(s.target), ukey, self.fn.name),
-                 ("def %s %s %s : %s" % (aux, sp.header, sig_inv, arrow)).replace("  ", " "),
+                 ("def %s %s %s : %s" % (aux, _prune_header(sp.header, sig_inv + " " + arrow + " " + " ".join(body)), sig_inv, arrow)).replace("  ", " "),
                  "  | []%s => %s" % (comma, res_next),
                  "  | %s :: rest__%s =>" % (pat, comma)] + ind(body, 2)
         self.aux.append(lines)
